@@ -437,11 +437,92 @@ class Func:
                 c = strip(b.term.get('cond')) if b.term.get('cond') else None
                 if isinstance(c, dict) and c.get('k') == 'int':
                     b.succ = [b.succ[0] if c['v'] else b.succ[1]]
+        self._resolve_joined_conditions()
         self._preds = None
         for b in self.blocks.values():
             for i, e in enumerate(b.events):
                 e['_b'] = b.id
                 e['_i'] = i
+
+    def _resolve_joined_conditions(self):
+        """clang joins the evaluation of a nested short-circuit condition
+        (`(A && B) || (C && D)`) in one empty block whose terminator carries the
+        whole expression.  Which predecessor edge was taken already decides its
+        value (short-circuit exits) or reduces it to the last operand (fall-through
+        from the rightmost leaf).  Re-route / specialise those edges so that every
+        conditional edge in the graph carries a simple condition."""
+        def leaves_path(expr, target):
+            # path of (node, side) from root to the first sub-expression whose canon is target
+            e = strip(expr)
+            if canon(e) == target:
+                return []
+            if isinstance(e, dict) and e.get('k') == 'bin' and e['op'] in ('&&', '||'):
+                for side in ('l', 'r'):
+                    sub = leaves_path(e[side], target)
+                    if sub is not None:
+                        return [(e, side)] + sub
+            if isinstance(e, dict) and e.get('k') == 'un' and e['op'] == '!':
+                sub = leaves_path(e['e'], target)
+                if sub is not None:
+                    return [(e, 'e')] + sub
+            return None
+
+        def rightmost(expr):
+            e = strip(expr)
+            while isinstance(e, dict) and e.get('k') == 'bin' and e['op'] in ('&&', '||'):
+                e = strip(e['r'])
+            return e
+
+        def whole_value(expr, sub_canon, v):
+            path = leaves_path(expr, sub_canon)
+            if path is None:
+                return None
+            for (node, side) in reversed(path):
+                if node.get('k') == 'un':
+                    v = not v
+                    continue
+                if node['op'] == '&&':
+                    if side == 'l':
+                        if v:
+                            return None      # right operand still to be evaluated
+                        v = False
+                    else:
+                        v = v                # left was true
+                else:
+                    if side == 'l':
+                        if not v:
+                            return None
+                        v = True
+                    else:
+                        v = v                # left was false
+            return v
+
+        nid = max(self.blocks) + 1 if self.blocks else 0
+        preds = {b: [] for b in self.blocks}
+        for b in self.blocks.values():
+            for si, s_ in enumerate(b.succ):
+                if s_ is not None:
+                    preds[s_].append((b.id, si))
+        for t in list(self.blocks.values()):
+            if not t.term or len(t.succ) != 2 or t.term.get('cls') == 'SwitchStmt':
+                continue
+            c = strip(t.term.get('cond')) if t.term.get('cond') is not None else None
+            if not (isinstance(c, dict) and c.get('k') == 'bin' and c['op'] in ('&&', '||')):
+                continue
+            if any(e['ev'] != 'load' for e in t.events):
+                continue
+            for (p, si) in preds.get(t.id, []):
+                pb = self.blocks[p]
+                if pb.term and pb.term.get('cond') is not None and len(pb.succ) == 2 and pb.term.get('cls') != 'SwitchStmt':
+                    v = whole_value(c, canon(strip(pb.term['cond'])), si == 0)
+                    if v is not None:
+                        pb.succ[si] = t.succ[0] if v else t.succ[1]
+                elif len(pb.succ) == 1 and not pb.term:
+                    leaf = rightmost(c)
+                    nb = Block(nid, [], list(t.succ), dict(t.term, cond=leaf), False)
+                    self.blocks[nid] = nb
+                    pb.succ[0] = nid
+                    nid += 1
 
     # -- basic graph helpers ------------------------------------------------
     def preds(self):
